@@ -22,6 +22,7 @@ func checkC11(c *Ctx, r *Report) {
 	c11d(c, r)
 	c11e(c, r)
 	c11f(c, r)
+	c11g(c, r)
 }
 
 func c11a(c *Ctx, r *Report) {
@@ -646,6 +647,117 @@ func c11f(c *Ctx, r *Report) {
 	}
 	r.Check(bad == "" && n >= 3, clause, "R4 DECISION-TABLE", key, c.pos(loop.Pos()),
 		"in a %token line a name is recorded with the number that directly follows it, else with 0 (numbered automatically); decided per iteration, nothing is carried from one name to the next", bad)
+}
+
+// c11g — R16 LOOP-CARRIED: the loops that read the names of one declaration line (parseTokendef, parsePrecList,
+// parseTypeList) treat every name on its own: a scalar local that is declared outside the loop and assigned inside it
+// must be assigned before it is read in every iteration. Otherwise what is recorded for one name (its code, its
+// temporary name) depends on the names before it on the line. Decided on the path enumerator: at the start of the
+// loop body such a variable is an unknown leaf; a leaf that survives into a condition or an effect of some path was
+// read before this iteration assigned it. Variables that the loop never assigns (the tag, the associativity) and
+// non-scalars (lists being built) are outside the rule.
+func c11g(c *Ctx, r *Report) {
+	const clause = "C11.d"
+	for _, fname := range []string{"parseTokendef", "parsePrecList", "parseTypeList"} {
+		f := c.need(r, clause, "Parser", "parser", fname)
+		if f == nil {
+			continue
+		}
+		info := f.Pkg.TypesInfo
+		key := f.Name + "/no-value-carried-between-names"
+		var loop *ast.ForStmt
+		for _, st := range f.Decl.Body.List {
+			if fs, ok := st.(*ast.ForStmt); ok {
+				loop = fs
+			}
+		}
+		if loop == nil {
+			r.Undecided(clause, "R16 LOOP-CARRIED", key, c.pos(f.Decl.Pos()), "no name loop")
+			continue
+		}
+		// W: scalar locals declared outside the loop and assigned inside it
+		assigned := map[types.Object]bool{}
+		ast.Inspect(loop.Body, func(n ast.Node) bool {
+			switch x := n.(type) {
+			case *ast.AssignStmt:
+				if x.Tok == token.DEFINE {
+					return true
+				}
+				for _, l := range x.Lhs {
+					if o := identObj(info, l); o != nil {
+						assigned[o] = true
+					}
+				}
+			case *ast.IncDecStmt:
+				if o := identObj(info, x.X); o != nil {
+					assigned[o] = true
+				}
+			}
+			return true
+		})
+		W := map[string]types.Object{}
+		for o := range assigned {
+			v, ok := o.(*types.Var)
+			if !ok || v.IsField() || (o.Pos() >= loop.Pos() && o.Pos() < loop.End()) {
+				continue
+			}
+			if b, ok := v.Type().Underlying().(*types.Basic); ok && b.Kind() != types.Invalid {
+				W[o.Name()] = o
+			}
+		}
+		pe := newPathEnum(info)
+		paths, err := pe.Enumerate(loop.Body.List)
+		if err != nil {
+			r.Undecided(clause, "R16 LOOP-CARRIED", key, c.pos(loop.Pos()), err.Error())
+			continue
+		}
+		var leafOf func(t *Term) string
+		leafOf = func(t *Term) string {
+			if t == nil {
+				return ""
+			}
+			if t.Op == "leaf" {
+				if _, ok := W[t.Name]; ok {
+					return t.Name
+				}
+			}
+			for _, a := range t.Args {
+				if s := leafOf(a); s != "" {
+					return s
+				}
+			}
+			for _, a := range t.Fields {
+				if s := leafOf(a); s != "" {
+					return s
+				}
+			}
+			return ""
+		}
+		bad := ""
+		for _, p := range paths {
+			for _, cd := range p.Conds {
+				if v := leafOf(cd.Atom); v != "" {
+					bad = "the condition `" + cd.Atom.String() + "` reads " + v + " before this iteration assigned it"
+				}
+			}
+			for _, e := range p.Effects {
+				if v := leafOf(e.Term); v != "" {
+					bad = "`" + oneLine(e.String()) + "` uses " + v + " as left by an earlier name of the line"
+				}
+			}
+		}
+		r.Check(bad == "", clause, "R16 LOOP-CARRIED", key, c.pos(loop.Pos()),
+			fmt.Sprintf("%d path(s) through the loop body: every scalar the loop assigns (%v) is assigned before it is read in the same iteration — nothing recorded for a name depends on the names before it", len(paths), sortedKeysObj(W)), bad)
+	}
+}
+
+func sortedKeysObj(m map[string]types.Object) []string {
+	var out []string
+	for k := range m {
+		out = append(out, k)
+	}
+	sortStrings(out)
+	return out
 }
 
 func collectFieldOfComposite(t *Term, typeSuffix, field string, out *[]*Term) {
